@@ -397,6 +397,19 @@ pub fn run(ctx: &mut Ctx) {
         let v = check_totality(&input);
         record(&v, &input, st)
     });
+    // map-level documents of C15 (objects around control points and breaks, sample points placed bit-exactly at
+    // the times where slider nodes look them up, five section orders, all versions)
+    let cases = ctx.tier.pick(40_000u64, 400_000u64);
+    ctx.pbt("c01-map-level", cases, 700, |t, st| {
+        let (d, k) = crate::props::c15::gen_case(t);
+        let text = crate::props::c15::render(&d, k);
+        let mut bytes = encode_text(&text, pick_enc(t));
+        let sentinel = if t.chance(50) { add_sentinel(&mut bytes) } else { None };
+        let input = Input { bytes, family: "map-level", sentinel };
+        let _g = crate::watchdog::guard(&input.bytes);
+        let v = check_totality(&input);
+        record(&v, &input, st)
+    });
     drop(wd);
     #[cfg(feature = "tracing")]
     {
